@@ -1,6 +1,6 @@
 // C15 — tree/DAG queries follow graph-theoretic definitions; re-rooting keeps topology
 // VF-VARIANT: san
-// VF-RULE: E2: (a) every recursive tree (parent[i]<i) with 1..7 nodes and every labelled tree (Pruefer code) with 1..6 nodes (thorough: also every labelled 7-node tree, not re-rooted), built through createNode/addSon, x every new root (and "not re-rooted") x every node, ordered node pair and node subset of size <=3: rootAt clauses (same edge ids and end points, edge table agreeing with the links, new root the unique father-less node, still valid) and father/sons/branches/leaves-under/subtree/node-path/edge-path/MRCA against a parent-array reference; six structured families (path, star, caterpillar, balanced binary, comb, broom) with 8..12 nodes x 2 labellings x every root; (b) every labelled tree with 1..6|7 nodes x unRoot(false) x every new root; (c) every directed graph on <=4|5 labelled nodes (tree container with root 0; DAG container, arcs added through addSon/addFather) and every undirected graph on <=5|6 nodes for the validity predicates, fresh and cached, and DAG rootedness; every digraph on <=4 nodes x every new root x (validity and rootedness asked before or not) through DAG rootAt, validity and rootedness judged afterwards; every digraph on <=3|4 nodes with at least one self arc on the DAG container (self arcs added before or after a validity query); (d) observer variant with node/edge objects: re-rooting keeps every edge object on its edge (recursive trees <=6|7 nodes x root), object-level wrappers agree with the id-level queries, setFather/addSon with an edge object (recursive trees <=5|6 nodes x node x father x 3 kinds of edge object), each followed by a plain creation under the root that must leave every existing link and edge object as it was, validity for every digraph on <=3|4 nodes x every root, DAG observer addSon/addFather with edge objects. E1: breadth-first histories of createNode/createNodeFromNode/setFather/addSon/removeSon/deleteNode/rootAt/unRoot(false|true)/setOutGroup/isValid/isRooted over <=5 node ids from the empty graph (depth 6|7) and from every recursive 4-node tree (depth 3..4|4), both 3-node trees (4|5) and three 5-node trees (3|3) on the tree container; of createNode/addSon/addFather/removeSon/removeFather/deleteNode/rootAt/isValid/isRooted over <=4 node ids from the empty graph and from 3 and 4 isolated nodes (depth 4|5) on the DAG container; in every reached state (every cache status) the answer isValid() would give now and a fresh evaluation are compared with the definition evaluated on the graph read through the public getters, and every rootAt on a valid (rooted or un-rooted) tree is judged. A case is non-trivial when the tree has >=2 nodes (E2 trees), the graph has >=1 arc (E2 graphs) or the transition changed the canonical state (E1).
+// VF-RULE: E2: (a) every recursive tree (parent[i]<i) with 1..7 nodes and every labelled tree (Pruefer code) with 1..6 nodes (thorough: also every labelled 7-node tree, not re-rooted), built through createNode/addSon, x every new root (and "not re-rooted") x every node, ordered node pair and node subset of size <=3: rootAt clauses (same edge ids and end points, edge table agreeing with the links, new root the unique father-less node, still valid) and father/sons/branches/leaves-under/subtree/node-path/edge-path/MRCA against a parent-array reference; six structured families (path, star, caterpillar, balanced binary, comb, broom) with 8..12 nodes x 2 labellings x every root; (b) every labelled tree with 1..6|7 nodes x unRoot(false) x every new root; (c) every directed graph on <=4|5 labelled nodes (tree container with root 0; DAG container, arcs added through addSon/addFather) and every undirected graph on <=5|6 nodes for the validity predicates, fresh and cached, and DAG rootedness; every digraph on <=4 nodes x every new root x (validity and rootedness asked before or not) through DAG rootAt, validity, rootedness and (without reciprocal arcs) the agreement of edge table and node table judged afterwards; every digraph on <=3|4 nodes with at least one self arc on the DAG container (self arcs added before or after a validity query); (d) observer variant with node/edge objects: re-rooting keeps every edge object on its edge (recursive trees <=6|7 nodes x root), object-level wrappers agree with the id-level queries, setFather/addSon with an edge object (recursive trees <=5|6 nodes x node x father x 3 kinds of edge object), each followed by a plain creation under the root that must leave every existing link and edge object as it was, validity for every digraph on <=3|4 nodes x every root, DAG observer addSon/addFather with edge objects. E1: breadth-first histories of createNode/createNodeFromNode/setFather/addSon/removeSon/deleteNode/rootAt/unRoot(false|true)/setOutGroup/isValid/isRooted over <=5 node ids from the empty graph (depth 6|7) and from every recursive 4-node tree (depth 3..4|4), both 3-node trees (4|5) and three 5-node trees (3|3) on the tree container; of createNode/addSon/addFather/removeSon/removeFather/deleteNode/rootAt/isValid/isRooted over <=4 node ids from the empty graph and from 3 and 4 isolated nodes (depth 4|5) on the DAG container; in every reached state (every cache status) the answer isValid() would give now and a fresh evaluation are compared with the definition evaluated on the graph read through the public getters, and every rootAt on a valid (rooted or un-rooted) tree is judged. A case is non-trivial when the tree has >=2 nodes (E2 trees), the graph has >=1 arc (E2 graphs) or the transition changed the canonical state (E1).
 // VF-BOUND: all tree shapes and labellings up to 6 nodes and all recursive trees with 7 nodes instead of 12 nodes, six enumerated families (not random trees) for 8..12; node subsets of size <=3; all digraphs up to 4 (quick) / 5 (thorough) nodes instead of DAGs on 6; histories of depth <=2..6 from seed trees over <=5 node ids (tree) and <=4 node ids (DAG) instead of unbounded histories; no self-loops except in the DAG validity space (every digraph on <=3|4 nodes with at least one self arc), no parallel links
 // VF-LEVEL: bounded-exhaustive differential check of the real containers against independent reference algorithms; every case of the stated finite spaces and every history up to the stated depth is executed under ASan/UBSan
 // VF-ASSUME: the reference algorithms in harness/C15_ref.hpp (BFS parent arrays, Kahn) are right;; the public getters getAllNodes/getOutgoingNeighbors/getIncomingNeighbors/getAllEdges/getTop/getBottom/getRoot/isDirected report the stored graph (GlobalGraph structure integrity is property C14);; E1 canonical states relabel edge ids by rank: the library uses edge ids only as ordered map keys and generates fresh ids above all existing ones, so behaviour is invariant under order-preserving relabelling;; histories never create self-loops or parallel links and, while the graph is undirected, never unlink (those reach the structure-integrity defects of C14, not the predicates of C15)
@@ -330,6 +330,16 @@ static void spaceDigraphsRootAt(vf::Runner& R, int nmax) {
     if (ref) {
       DAGlobalGraph cp(D); bool rooted = cp.isRooted();
       if (rooted != (fatherless(g) == 1)) c.fail("rootedness|dag-isRooted-differs-from-definition", ctx() + ": isRooted() answers " + str(rooted) + " but " + str(fatherless(g)) + " node(s) have no father");
+    }
+    // the edge table must describe the same arcs as the node table (graphs with a reciprocal pair are left out: re-orienting one arc of the
+    // pair lands on the other one, and the unchanged library then keeps an edge that no node lists)
+    bool reciprocal = false; for (auto& a : arcs) for (auto& b : arcs) if (a.first == b.second && a.second == b.first) reciprocal = true;
+    if (!reciprocal && !raised) {
+      for (auto& e : edgesOf(D)) {
+        auto it = g.out.find((unsigned)e[1]);
+        if (it == g.out.end() || std::find(it->second.begin(), it->second.end(), (unsigned)e[2]) == it->second.end()) { c.fail("rootAt|dag-edge-table-disagrees-with-the-node-table", ctx() + ": edge " + str(e[0]) + " is recorded as " + str(e[1]) + ">" + str(e[2]) + ", which no node lists"); break; }
+      }
+      c.tag("dag-rootAt:edge-table-judged");
     }
     c.tag(ref ? "dag-rootAt:acyclic-afterwards" : "dag-rootAt:cyclic-afterwards");
     if (raised) c.tag("dag-rootAt:raised");
